@@ -12,6 +12,7 @@ func runC20(c *Ctx, r *Report) {
 	r.Rule("C20.R1", "terminal marking: on every path through one iteration of Insert's byte loop on which the byte is the last of the word, the child reached is marked as a word: the shared end marker is stored, a node is created with valid=true, or valid=true is stored on the existing node")
 	r.Rule("C20.R2", "validity survives the end-marker upgrade and is not invented: a node created in Insert gets valid=true exactly on the path where the replaced child was the end marker (the flag is a per-byte value: true from the end-marker arm, false from the nil arm, never carried over from an earlier byte)")
 	r.Rule("C20.R6", "the enumeration (AllBytes) returns before its child scan only under a condition that means the node has no children: nil receiver, the leaf flag of the shared end marker, or min > max")
+	r.Rule("C20.R7", "the REPL completion callback queries the trie with exactly line[:pos] (it returns the common prefix as the whole new line)")
 	r.Rule("C20.R3", "every store of a child pointer in Insert is followed, on all paths to the end of the iteration, by the min and max comparisons that widen [min,max]")
 	r.Rule("C20.R4", "enumeration loops over a byte range (i <= max with a uint8 counter) leave through an explicit i == 255 exit before the increment wraps")
 	r.Rule("C20.R5", "Contains is Prefix(word).IsValid(), IsValid/IsLeaf test nil first, and the shared end marker is valid and a leaf")
@@ -424,6 +425,27 @@ func runC20(c *Ctx, r *Report) {
 			if n6 == 0 {
 				r.OkWhy("C20.R6", abName, "no early return in the enumeration", c.Pos(ab.Pos()), "every return follows the child scan")
 			}
+		}
+	}
+	// R7: the completion callback asks the trie about exactly the text before the cursor
+	{
+		cb := c.SSAFn(c.Fn("repl", "AutoComplete.autoCompleteCallback"))
+		prefixAll := c.Fn("trie", "Trie.PrefixAll")
+		n7 := 0
+		for _, call := range callsIn(cb, prefixAll) {
+			n7++
+			arg := call.Common().Args[1]
+			okQ := false
+			if sl, ok := arg.(*ssa.Slice); ok && sl.Low == nil && sl.High != nil {
+				_, xIsParam := sl.X.(*ssa.Parameter)
+				_, hIsParam := sl.High.(*ssa.Parameter)
+				okQ = xIsParam && hIsParam
+			}
+			r.Check(okQ, "C20.R7", ssaFuncName(cb), "the trie is queried with line[:pos]", c.Pos(call.Pos()),
+				"the completion callback returns the common prefix found as the whole new line, so the query has to be the whole text before the cursor; a transformed query ("+arg.String()+") makes the returned line lose what was cut off (the indentation of a continuation line)")
+		}
+		if n7 == 0 {
+			r.Undecided("C20.R7: no call to Trie.PrefixAll in the completion callback")
 		}
 	}
 	// R5
